@@ -14,6 +14,7 @@
 
 mod ctx;
 mod gen;
+mod jspell;
 mod jtok;
 mod rng;
 mod same;
